@@ -10,7 +10,7 @@ TRUST = [
 
 CHECKS = {
     "C10": {
-        "test": "TestC10", "level": "exploration", "checks": (2500, 40000), "timeout": (600, 3600), "fuzz": [("FuzzC10", "45s")],
+        "test": "TestC10", "level": "exploration", "checks": (2500, 30000), "timeout": (600, 3600), "fuzz": [("FuzzC10", "45s")],
         "rule": "exhaustive sweeps of all 2^8/2^16/2^24 raw integer values in both signedness modes (2^32 in the thorough tier) and all 256 YEAR bytes "
                 "through CellBytes vs. the arithmetic two's-complement reading; plus rapid-generated (type, metadata, value, mapper signedness, surrounding bytes) "
                 "cases for 32/64-bit integers (boundaries + uniform), FLOAT/DOUBLE bit patterns (zeros, subnormals, extremes, powers of 2 and 10, uniform finite), "
@@ -37,7 +37,7 @@ CHECKS = {
         "assumptions": TRUST + ["the zone database of the sandbox / embedded time/tzdata gives the UTC offset of an instant", "seconds==0 denotes the zero timestamp and is only generated with a zero fraction"],
     },
     "C01": {
-        "test": "TestC01", "level": "exploration", "checks": (300, 3000), "timeout": (900, 7200),
+        "test": "TestC01", "level": "exploration", "checks": (300, 1000), "timeout": (900, 7200),
         "rule": "rapid-generated row-based histories (config x 1..4(8) tables x every emitted column type with its metadata domain x units {tx/XID, tx/COMMIT, rolled-back tx, DDL, "
                 "autocommitted rows, statement DML, rotations, GTID / anonymous-GTID / previous-GTIDs / heartbeat / unknown events and statements} x full / key-only / random "
                 "row images x NULLs) laid out by the independent encoder, served over loopback TCP by the simulated master from a drawn unit boundary to a fresh Streamer "
@@ -47,7 +47,7 @@ CHECKS = {
                                 "how Stream/Error() end at the EOF is judged by C05/C06, not here"],
     },
     "C02": {
-        "test": "TestC02", "level": "exploration", "checks": (150, 1500), "timeout": (900, 7200),
+        "test": "TestC02", "level": "exploration", "checks": (150, 600), "timeout": (900, 7200),
         "rule": "(1) all 2^5+2^6+2^8 casings of begin/commit/rollback against GetStatementCategory; (2) EXHAUSTIVE: every sequence of length <= 3 (thorough: <= 4) over the "
                 "14-symbol unit alphabet {tx/XID, tx/COMMIT, rolled-back tx, tx with ignorable events and statements inside, DDL, autocommitted rows, statement DML, rotation, "
                 "GTID, anonymous GTID, previous-GTIDs, heartbeat, unknown event, unknown statement}, each streamed end to end (config variant and pacing vary with the index, "
@@ -58,7 +58,7 @@ CHECKS = {
                                 "an autocommitted row change is one table map plus one rows event"],
     },
     "C03": {
-        "test": "TestC03", "level": "exploration", "checks": (150, 1500), "timeout": (900, 7200),
+        "test": "TestC03", "level": "exploration", "checks": (150, 450), "timeout": (900, 7200),
         "rule": "rapid-generated histories with 0..2 rotations and first-file offsets up to 2^32-1; run A streams from a drawn boundary; then for every delivered transaction k "
                 "(8 sampled when more) a NEW Streamer is started at A[k].NextPosition. Oracle: A's labels equal the reference coordinates and obey the chain law; each resumed "
                 "stream's dump request carries exactly the label, the label is an event boundary, and its deliveries are deep-equal to A[k+1:] (and equal the model). "
@@ -66,7 +66,7 @@ CHECKS = {
         "assumptions": TRUST + ["a file's served region may start at a large offset (indistinguishable, for a replica that starts there, from a long file)"],
     },
     "C07": {
-        "test": "TestC07", "level": "exploration", "checks": (400, 5000), "timeout": (600, 3600),
+        "test": "TestC07", "level": "exploration", "checks": (400, 3000), "timeout": (600, 3600),
         "rule": "rapid-generated (server id in {1, 2^31-1, 2^31, 2^32-1, random}, binlog file name of 1..200 bytes incl. UTF-8 and spaces, offset in {4, 2^31-1, 2^31+1, "
                 "2^32-1-size, random}) x 1..4 attempts on one streamer (each failing attempt is cut by a connection close after 0..2 further commits). Oracle: the command log "
                 "decoded by the simulated master for every attempt: SET @master_binlog_checksum before the dump, exactly one COM_BINLOG_DUMP, no NON_BLOCK flag, configured "
@@ -75,7 +75,7 @@ CHECKS = {
         "assumptions": TRUST + ["extra harmless queries before the checksum query are tolerated"],
     },
     "C08": {
-        "test": "TestC08", "level": "exploration", "checks": (140, 1500), "timeout": (900, 7200),
+        "test": "TestC08", "level": "exploration", "checks": (140, 700), "timeout": (900, 7200),
         "rule": "rapid-generated histories whose string/blob values are pushed to 3000..9000 bytes (packets straddle the driver's 4 KiB receive buffer) and which contain "
                 "zero TIMESTAMPs, streamed with far-ahead or lock-step pacing to a handler that snapshots each delivery and (half the cases) overwrites every delivered value "
                 "in place. Oracle: every delivery equals the model at delivery time whatever was overwritten before; no value changes when another value of the same delivery "
@@ -84,7 +84,7 @@ CHECKS = {
         "assumptions": TRUST + ["the handler only overwrites bytes in place (never appends to a delivered slice)"],
     },
     "C20": {
-        "test": "TestC20", "level": "exploration", "checks": (700, 10000), "timeout": (600, 3600),
+        "test": "TestC20", "level": "exploration", "checks": (700, 5000), "timeout": (600, 3600),
         "rule": "two thirds synthetic Transaction values (arbitrary bytes in file names, table names, SQL, column names and data: control characters, quotes, backslashes, "
                 "<>&, invalid UTF-8; nil vs empty data; nil Events; unknown kind / type codes), one third transactions delivered end to end by C01's generator. Oracle: "
                 "json.Marshal succeeds, json.Valid, and a generic decode shows both positions, every event's kind string / table / sql, and per column filed, type name (from the "
@@ -93,7 +93,7 @@ CHECKS = {
         "assumptions": TRUST + ["invalid UTF-8 is only required to produce valid JSON (encoding/json substitutes U+FFFD)"],
     },
     "C04": {
-        "test": "TestC04", "level": "fault_enumeration", "checks": (250, 2500), "timeout": (900, 7200),
+        "test": "TestC04", "level": "fault_enumeration", "checks": (250, 1500), "timeout": (900, 7200),
         "rule": "rapid-generated scenarios on ONE streamer: history x start boundary x 1..3 failing attempts followed by a clean one; each failing attempt = fault kind in "
                 "{socket close, reset, short packet, out-of-sequence packet, ERR packet, EOF packet, invalid event, RowsQuery/IntVar/Rand event, undecodable event, cancel "
                 "from outside at packet i, cancel from inside the handler after tx j, handler error at call j, mapper error, mapper column-count mismatch} x fault point x "
@@ -104,7 +104,7 @@ CHECKS = {
         "assumptions": TRUST + ["undecodable events are those the decoder reports as errors (binlog v3 FDE, query db-length overrun, short ROTATE, unknown column type, unknown checksum algorithm, unannounced table id)"],
     },
     "C05": {
-        "test": "TestC05", "level": "fault_enumeration", "checks": (45, 500), "timeout": (900, 7200), "race": True, "race_shards": [12, 13, 14, 15],
+        "test": "TestC05", "level": "fault_enumeration", "checks": (45, 250), "timeout": (900, 7200), "race": True, "race_shards": [12, 13, 14, 15],
         "rule": "rapid-generated scenarios: small history (3..10 packets) x stop cause in {master EOF, cancel at packet i, cancel while the handler is gated, cancel from inside "
                 "the handler, deadline, EOF / ERR packet, socket close, reset, short packet, out-of-sequence packet, handler error, mapper error, column mismatch, unsupported / "
                 "invalid / undecodable event, connect refused, ERR at handshake, ERR to the checksum query, cancel during the handshake} x stop point x pacing {lock-step: reader "
@@ -119,7 +119,7 @@ CHECKS = {
                                 "the race detector only sees races on executed paths"],
     },
     "C06": {
-        "test": "TestC06", "level": "fault_enumeration", "checks": (120, 1500), "timeout": (900, 7200),
+        "test": "TestC06", "level": "fault_enumeration", "checks": (120, 900), "timeout": (900, 7200),
         "rule": "the C05 scenario space (stop cause x stop point x pacing x handler mode x fresh/used streamer), weighted towards master errors (codes 1..65535, with and "
                 "without #sqlstate, ASCII / UTF-8 / packet-header-looking messages), transport failures and handler / decode / table-lookup failures. Oracle (error-reporting "
                 "table): handler, mapper, column-mismatch, unsupported, invalid and undecodable causes that demonstrably reached the library => Stream != nil; if Stream == nil "
@@ -130,7 +130,7 @@ CHECKS = {
                                 "when the caller cancelled before Stream returned either answer is allowed"],
     },
     "C09": {
-        "test": "TestC09", "level": "exploration", "checks": (2500, 40000), "timeout": (600, 3600), "fuzz": [("FuzzC09", "45s")],
+        "test": "TestC09", "level": "exploration", "checks": (2500, 30000), "timeout": (600, 3600), "fuzz": [("FuzzC09", "45s")],
         "rule": "rapid-generated (config {checksum, v1/v2 rows, extra-data length, 4/6-byte ids} x table of 1..300 columns over the emitted AND documented-extra type strata with "
                 "their metadata domains x {write, update, delete} x presence bitmaps (full / key-only / random, >= 1 present) x NULL patterns x 0..8 rows), encoded by the independent "
                 "encoder and decoded directly with TableMap / Rows / CellBytes. Oracle: row count, presence bitmaps, per-row NULL bitmaps and image bytes equal the encoder's, and "
@@ -139,7 +139,7 @@ CHECKS = {
         "assumptions": TRUST + ["every used bitmap has >= 1 present column", "the library's BinlogFormat value is constructed from the logical configuration (the format-description decoder is C16's subject)"],
     },
     "C13": {
-        "test": "TestC13", "level": "exploration", "checks": (150, 2000), "timeout": (900, 7200), "fuzz": [("FuzzC13", "45s")],
+        "test": "TestC13", "level": "exploration", "checks": (150, 1000), "timeout": (900, 7200), "fuzz": [("FuzzC13", "45s")],
         "rule": "(a) CHAR/BINARY: EVERY declared length 0..1023 x actual {0,1,255,256,max}; VARCHAR declared 0..65535 (boundaries + stride 61; every length in the thorough tier) x "
                 "the same actual lengths; blob family length bytes 1..4 x {0,1,255,256,65535,65536,max}; random declared/actual/content for all eight string/binary type codes, "
                 "through CellBytes (verbatim bytes, exact consumption). (b) end to end: tables of 1..10 string columns streamed with column p NULL / empty / absent for EVERY "
@@ -148,7 +148,7 @@ CHECKS = {
         "assumptions": TRUST + ["a single-column table cannot have its only column absent (a bitmap needs one present column)"],
     },
     "C14": {
-        "test": "TestC14", "level": "exploration", "checks": (2500, 30000), "timeout": (600, 5400), "fuzz": [("FuzzC14", "90s")],
+        "test": "TestC14", "level": "exploration", "checks": (2500, 20000), "timeout": (600, 5400), "fuzz": [("FuzzC14", "90s")],
         "rule": "rapid-generated JSON documents (depth <= 6, fan-out <= 40, <= 150 nodes: objects with unique keys in MySQL's key order, arrays, literals, signed / unsigned "
                 "integers at every width boundary, doubles, quote-free strings 0..70000 bytes incl. UTF-8, opaque DATE / TIME (both signs) / DATETIME / DECIMAL) serialised by an "
                 "independent json_binary writer (small format, large format when >= 64 KiB by padding or by a forced format bit, small containers inside large ones, inlined and "
@@ -158,7 +158,7 @@ CHECKS = {
         "assumptions": TRUST + ["keys and strings contain no quote characters (the renderer does not escape; stated in the property's quantifier)"],
     },
     "C15": {
-        "test": "TestC15", "level": "exploration", "checks": (600, 8000), "timeout": (600, 5400), "fuzz": [("FuzzC15", "45s")],
+        "test": "TestC15", "level": "exploration", "checks": (600, 4000), "timeout": (600, 5400), "fuzz": [("FuzzC15", "45s")],
         "rule": "(a) direct: table maps of 1..600 columns over both type strata, db/table names 1..255 bytes, arbitrary flags, every nullability pattern drawn, 4/6-byte ids, 0..3 "
                 "trailing optional-metadata TLVs -> TableMap()/TableID() must equal the schema (types, metadata per the documented byte order, CanBeNull). (b) end to end: an id "
                 "re-announced with other column types, an id re-bound to a different table (inside one transaction or across transactions with DDL in between), a mapper that "
@@ -177,7 +177,7 @@ CHECKS = {
         "assumptions": TRUST + ["the pre-5.0.4 Q_CATALOG status variable (code 2) is never emitted by a 5.6+ master and is not generated", "header length is 19 (what every 5.x/8.x master writes)"],
     },
     "C17": {
-        "test": "TestC17", "level": "fault_enumeration", "checks": (60, 800), "timeout": (900, 7200), "fuzz": [("FuzzC17", "60s")],
+        "test": "TestC17", "level": "fault_enumeration", "checks": (60, 400), "timeout": (900, 7200), "fuzz": [("FuzzC17", "60s")],
         "rule": "(a) byte strings of length 0..64 in structured classes (length field ==, <, > the buffer length; shorter than a header; all 0xFF; high length bytes set) and longer "
                 "ones up to 5 KiB; every well-formed event of a generated history truncated to and extended from EVERY length -> IsValid must equal (len >= 19 and "
                 "le32(b[9:13]) == len) for both event flavors and every header accessor / type predicate must agree with an independent read. (b) a packet failing the gate "
